@@ -440,33 +440,17 @@ def vacuity(tp: Template, b: Built, cfg: Cfg) -> Obl:
 
 
 def perturbation(tp: Template, b: Built, cfg: Cfg, a: str) -> Obl:
-    """EQ must be able to tell a against a perturbed copy of itself (sanity of EQ):
-    the query `rows(a) non-empty  ∧  EQ(a, perturbed a)` must be unsat... and the query
-    `not EQ(a, perturbed a)` must be sat."""
+    """Sanity of EQ (DESIGN 6.5): the relation with its first row removed must be
+    distinguishable from the relation itself, i.e. `not EQ(a, a minus first row)` must be
+    satisfiable inside DEF.  It is unsatisfiable only if the output is always empty."""
     o = Obl(tp.name, f"perturbation:{a}")
     rel = b.rel[a]
-    if not rel.names:
-        o.status = "skipped:no-columns"
-        return o
-    last = rel.names[-1]
-    cells = rel.data[last]
-    pert = []
-    for c in cells:
-        if c.ty == INT:
-            pert.append(K.Cell(INT, c.null, c.val + 1))
-        elif c.ty == BOOL:
-            pert.append(K.Cell(BOOL, c.null, K.Not(c.val)))
-        elif c.ty == STR:
-            pert.append(K.Cell(STR, c.null, z3.Concat(c.val, z3.StringVal("~"))))
-        elif c.ty == REAL:
-            pert.append(K.Cell(REAL, c.null, c.val + 1))
-        else:
-            pert.append(K.Cell(INT, K.FALSE, z3.IntVal(0)))
-    P = Rel(rel.names, {**rel.data, last: pert}, rel.present, rel.ok)
+    pos = rel.dense_pos()
+    P = Rel(rel.names, rel.data, [K.And(rel.present[i], pos[i] != 0) for i in range(rel.n)], rel.ok)
     cons = base_constraints(b) + def_conj(b) + [K.Not(K.multiset_eq(rel, P))]
     r, model, dt = solve(cons, cfg.timeout_ms)
     o.seconds = dt
-    o.status = "discriminates" if r == "sat" else f"blind:{r}"
+    o.status = "discriminates" if r == "sat" else ("output-always-empty" if r == "unsat" else f"blind:{r}")
     return o
 
 
